@@ -20,6 +20,8 @@ RULES = {
              "self-allowance and already-expired new expiry are rejected",
     "R02.4": "decrease saturates: DecreaseAllowance either subtracts exactly on a path whose condition implies "
              "amount < / <= allowance, or removes the entry; it has no Ok-path of another kind",
+    "R02.6": "one allowance, two views (shared with C19 R19.1 / R19.2): every write of an allowance is paired with the same write at "
+             "the swapped key of the other map, each computed from its own stored entry",
     "R02.5": "notification: Ok-paths of Send/SendFrom emit exactly one message WasmMsg::Execute{contract_addr: <contract>, "
              "msg: to_json_binary(Receive(Cw20ReceiveMsg{sender: info.sender, amount: <moved amount>, msg: <payload>})), "
              "funds: []}; all other variants emit nothing",
@@ -163,6 +165,17 @@ def run(ctx):
     ctx.floor("R02.1", "debiting variants", len(n_debits), 6)
     ctx.floor("R02.2", "drawing variants", len(n_draws), 3)
     ctx.floor("R02.5", "Send/SendFrom Ok-paths", n_emit, 2)
+    # R02.6 = C19 R19.1 / R19.2: what a spender may draw is what the owner approved only while the two allowance maps hold the same
+    # entry - a grant computed from one map and stored into the other, or a revocation that misses one of them, leaves an allowance
+    # the owner never gave (or took back) on the side the next grant starts from
+    from . import C19
+    sub = type(ctx)(ctx.pid, ctx.facts, ctx.engine, ctx.tier, ctx.tree_hash)
+    C19.run(sub)
+    for k in sub.order:
+        o = sub.obs[k]
+        if o.rule in ("R19.1", "R19.2") and not o.key.startswith(("anchor", "floor")):
+            ctx.ob("R02.6", o.key, True if o.status == "discharged" else (None if o.status == "undecided" else False),
+                   detail="; ".join(o.details), sites=o.sites, sample=o.sample, trivial=o.trivial)
 
 
 def check_draw(p, i, e):
